@@ -10,9 +10,9 @@ PROP = {'title': 'Typed wrappers are transparent; ==, < and hash are mutually co
                'hash coherence are checked as the for-all-pairs/triples claims they are, including for values reached through '
                'operations (~, assignment from another alternative, spare capacity) which concrete unit tests never combine.',
  'level_note': 'component domain {0,1,2} ({0,1} for 4- and 6-component types and 4-node trees); sizes <= 3 (grid <= 2x2, tree <= 4 nodes); '
-               'int/unsigned/string components only; the oracle key of each object is written down while the object is built',
+               'int/unsigned/string components in the pair+triple universes; element-semantics universes (pairs only) use double {+0.0,-0.0,1,NaN,inf}, a padded trivially copyable struct whose == ignores a member and the padding, and a type with non-reflexive ==; strong_typedef operators additionally over float/double special values and a partially ordered flag set; the oracle key of each object is written down while the object is built',
  'binaries': [{'name': 'C17',
-               'sources': ['harness/C17.cpp', 'harness/C17_sum.cpp', 'harness/C17_math.cpp', 'harness/C17_cont.cpp'],
+               'sources': ['harness/C17.cpp', 'harness/C17_sum.cpp', 'harness/C17_math.cpp', 'harness/C17_cont.cpp', 'harness/C17_elem.cpp', 'harness/C17_elem2.cpp'],
                'libs': [],
                'flavour': 'asan'}],
  'deadline': {'quick': 300, 'thorough': 1500},
@@ -22,7 +22,12 @@ PROP = {'title': 'Typed wrappers are transparent; ==, < and hash are mutually co
          'lexicographic key order) and all ordered triples (transitivity of ==, of < and of incomparability); a pair is non-trivial '
          'when the two objects are different objects of the universe, a triple when the premise of a transitivity implication holds '
          'for three different objects, an operator pair when the operands differ and wrap / have different signs; cases are distinct '
-         'index tuples',
+         'index tuples; element-semantics shards (elem_*): for raw_vector (all sequences of length 0..3), optional, either, variant, tuple, array, '
+         'record, enum array, recursive, strong_typedef, grid, tree, math vector/dim/matrix/box/sphere, reference, shared_ptr all ordered '
+         'pairs (including an object with itself and with a byte-identical second object) over component types double/padded/nr: == must '
+         'be exactly shape equality plus std::equal over the plain component values with the component type\'s own ==, != its negation, '
+         'equal => equal hash, and for pairs of totally ordered values < is the documented lexicographic order with the component\'s < and '
+         'exactly one of ==, a<b, b<a holds; such a pair is non-trivial when element-wise == and byte identity disagree',
  'assumptions': ['only the operators and hash objects a type really offers are checked (tuple, array, record, either, tree, sphere, '
                  'recursive, enum array, matrix: no <; hash only for strong_typedef, reference, shared_ptr, vector, dim, matrix, bitfield '
                  'and range::hash over raw_vector)',
@@ -32,5 +37,8 @@ PROP = {'title': 'Typed wrappers are transparent; ==, < and hash are mutually co
                  'reference and shared_ptr are compared by identity of the target (documented), targets with equal values are '
                  'different',
                  'moved-from objects are outside the universes (valid but unspecified)',
+                 'for component values that are not totally ordered (NaN, nr{0}) only ==, != and hash coherence are checked on '
+                 'containers (no order laws); strong_typedef operators are checked for transparency on them',
+                 'box<double> components are pos and max-pos computed in plain double arithmetic (size() is documented as derived)',
                  'mixed-storage operator< of math vectors/dims (row view vs static) does not compile and is not exercised; mixed-storage '
                  '== is']}
